@@ -9,6 +9,7 @@ CONSTANTS
   FnOut = FALSE
   Poller = FALSE
   Aging = FALSE
+  Overruns = FALSE
   Gen = "full"
 INVARIANTS EmitScn
 CHECK_DEADLOCK FALSE
